@@ -95,6 +95,8 @@ func scenarios(tier string) []svc.Scenario {
 		// output produced on demand while the converter is attached to no tag, the executable removed and another one
 		// installed under its name, the converter attached afterwards
 		{Name: "converter-replaced-while-detached", Converter: true, Program: []string{"import:P1", "addtag:tag/p=cport:1", "view.open:v1", "view.data:v1=0/conv", "convdel:conv", "convreplace:conv", "converters:tag/p=conv"}},
+		// a view held while a converter that is not the last one of a tag's list is detached and another one attached
+		{Name: "view-held-across-converter-changes", Converter: true, Program: []string{"import:P1", "addtag:tag/p=cport:1", "converters:tag/p=conv,conv2", "view.open:v1", "converters:tag/p=conv2", "converters:tag/p=conv2,convflaky"}},
 		{Name: "two-tags", Program: []string{"addtag:tag/p=cport:1", "addtag:tag/d=cdata:foo3", "import:P1", "import:P3"}},
 	}
 	if tier == "thorough" {
